@@ -21,7 +21,7 @@ from irsx import dag, engine, diff as dd
 from irsx.smat import M, vars_, ZERO, ONE
 from . import groups as G_
 from .common import guarded, Results, prove_pairs
-from .lie import Fn, mat_pairs, vec_pairs, tangent_sampler, subst_fn, series_pairs
+from .lie import Fn, mat_pairs, vec_pairs, tangent_sampler, subst_fn, series_pairs, rounding_standin
 
 PROP = "C02"
 TOL = Fraction(1, 10 ** 9)
@@ -189,6 +189,10 @@ def run_group(gname, s, tier="quick", seed=0, canary=False):
             series_pairs(res, "%s::log/taylor/p%d" % (tag, k), vec_pairs(p.out("t"), pc.out("t")), G, TOL,
                          group_input=True, prefix="g", call=fl.call(), pv=p)
     guarded(res, tag + "::log/taylor", do_log_taylor)
+    def do_standin():
+        btol = Fraction(1, 10 ** 9) if s == "d" else Fraction(1, 1000)
+        rounding_standin(res, "%s::exp" % tag, fe, G, btol, "o", tier, seed, tscales=(1.0, 1e3))
+    guarded(res, tag + "::standin", do_standin)
     edge = [v for f in (fe, fl) for v in f.views if v.status == "ok" and v.cls in ("edge", "mixed")]
     if edge:
         res.unverified.append("%s: %d path(s) on which |a_rot|^2 equals the switch constant exactly (measure zero; bounded stand-in only)" % (G.name, len(edge)))
